@@ -27,10 +27,11 @@ EXTENDS JA4Ops
 CONSTANTS N,      \* length bound of the list in focus
           BigN    \* sizes for the ">99" clause
 
-CipherSyms == {2570, 64250, 4865, 4866, 49199}
+\* 6698 = 0x1a2a and 2586 = 0x0a1a look like GREASE nibble-wise (0x?a?a) but are not: they count and are hashed
+CipherSyms == {2570, 64250, 4865, 4866, 49199, 6698}
 ExtSyms    == {2570, 64250, 0, 16, 10, 13, 43, 21, 65281, 39321}
-SigSyms    == {2570, 1027, 2052, 1025}
-SVSyms     == {2570, 772, 771, 770}
+SigSyms    == {2570, 1027, 2052, 1025, 2586}
+SVSyms     == {2570, 772, 771, 770, 6698}
 G1 == 2570
 G2 == 64250
 
